@@ -19,6 +19,8 @@ CHECKS = {
          "§5 C14", "Lean 4 proof (permutation invariance via an order-free characterisation) + cross-process differential run"),
  "C12": ("proof, for every flag codec / enumeration / the AI-script and hit-point codecs as regenerated from the source, of number->rich->number and rich->number->rich exactness on the WHOLE domain (statements over all natural numbers, proved by induction on bits / membership, not by enumeration), injectivity, and rejection of every non-member number; plus exhaustive correspondence of the model with the real helpers",
          "§5 C12", "Lean 4 proof (bit induction, finite-table obligations by decide +kernel) + ast translator of bit layouts/enums + exhaustive differential correspondence"),
+ "C18": ("proof by complete enumeration in the kernel (decide +kernel, split over 16 files): for every one of the package's modules taken as the first import, the import-execution model over the regenerated import graph terminates without ImportError and every loaded registry holds exactly the model classes' ids, each registered once; partial: CPython's import machinery is modelled (tied by importing each module in a fresh interpreter)",
+         "§5 C18", "Lean 4 proof by complete enumeration over the generated import graph + ast translator + exhaustive fresh-interpreter correspondence"),
  "C19": ("proof that the decoder model is total (well-founded recursion on the remaining input) and that every accepted input re-encodes to bytes that decode to the same model (c19_writable, for all byte strings); tied to the code by correspondence on a malformed-input stream",
          "§5 C19", "Lean 4 proof (termination by well-founded recursion; stability by strong induction) + differential correspondence on malformed inputs"),
 }
